@@ -340,24 +340,42 @@ Proof. exact (@register_open). Qed.
 Print Assumptions C12_register_open.
 
 (* ===== JSON round trip (ChargingNetwork.from_json(net.to_json())) =====
-   `json_reload lossy` models the reload; `lossy` says whether a matrix without rows loses its second dimension
-   (probed on the implementation on every run).  Full-strength statement "the reloaded network is the network"
-   holds when the serialisation is not lossy ... *)
-Theorem C12_json_roundtrip_lossless : forall (A : Type) (j : jnet A), json_reload false j = j.
-Proof. exact (@json_reload_lossless). Qed.
-Print Assumptions C12_json_roundtrip_lossless.
+   `json_reload lossy` models the reload; `repo_json_lossy` is read from _from_dict of the tree under test (it
+   reshapes the reloaded matrix to (constraints, stations) since d5bb06b) and probed on the implementation on every run.
+   Full strength: the reloaded network IS the network — also when every constraint had been removed — and every
+   operation on it behaves as on the original, so all theorems above carry over to reloaded networks. *)
+Theorem C12_json_roundtrip : forall (A : Type) (j : jnet A), json_reload repo_json_lossy j = j.
+Proof. exact (@json_roundtrip). Qed.
+Print Assumptions C12_json_roundtrip.
 
-(* ... and, whatever the serialisation does with row-less matrices, on every reachable network that still has a
-   constraint or never had one: the reload changes nothing and every later operation behaves as on the original, so
-   all theorems above carry over.  (The remaining case — all constraints removed, then reloaded — is the open
-   finding refuted in Props/C12_findings.v.) *)
-Theorem C12_json_roundtrip_partial : forall (A : Type) (zero : A) (ops : list (op A)) lossy,
+Theorem C12_json_roundtrip_ops : forall (A : Type) (zero : A) (n : net A) (o : op A),
+  jstep zero o (json_reload repo_json_lossy (mkJ n false)) =
+  (fst (step zero o n), mkJ (snd (step zero o n)) false).
+Proof. exact (@json_roundtrip_ops). Qed.
+Print Assumptions C12_json_roundtrip_ops.
+
+(* why _from_dict must restore the shape: with a bare np.array(list) (the code before d5bb06b) a network whose
+   constraints were all removed reloads with a matrix of shape (0,); a well-formed add_constraint then raises after the
+   limit was appended — a limit without row and name (corpus/C12) *)
+Theorem C12_json_lossy_reload_misaligns :
+  exists (ops : list (op Q)) (o : op Q),
+    let j := json_reload true (mkJ (run 0%Q ops net0) false) in
+    let r := jstep 0%Q o j in
+    fst (step 0%Q o (run 0%Q ops net0)) = None /\
+    fst r = Some "ValueError"%string /\
+    List.length (mags (jn (snd r))) = 1%nat /\ cnames (jn (snd r)) = [] /\ cmat (jn (snd r)) = Some [].
+Proof. exact json_refuted. Qed.
+Print Assumptions C12_json_lossy_reload_misaligns.
+
+(* for any serialisation: the reload is the identity on every reachable network that still has a constraint or
+   never had one *)
+Theorem C12_json_roundtrip_any_serialisation : forall (A : Type) (zero : A) (ops : list (op A)) lossy,
   let n := run zero ops net0 in
   cnames n <> [] \/ cmat n = None ->
   json_reload lossy (mkJ n false) = mkJ n false /\
   forall o, jstep zero o (mkJ n false) = (fst (step zero o n), mkJ (snd (step zero o n)) false).
 Proof. exact (@json_roundtrip_identity). Qed.
-Print Assumptions C12_json_roundtrip_partial.
+Print Assumptions C12_json_roundtrip_any_serialisation.
 
 (* ===== non-vacuity: a concrete history =====
    stations registered in the order 5, 2, 9 (2 twice); constraints "pod" = 1*s2 + 1*s9 (listed 9 first),
